@@ -2,6 +2,7 @@ package props
 
 import (
 	"fmt"
+	"go/constant"
 	"go/token"
 	"go/types"
 	"strings"
@@ -12,7 +13,7 @@ import (
 )
 
 func init() {
-	register("C19", "Structural clauses of metadata-only transfer, decided on all paths of the receive loop: the id counter advances for every announced entry including the skipped listing-file name (finding F1, fixed); in metadata mode every announced entry other than the listing file's own name is framed into the buffer before the loop continues; a frame is alloc(size+4) with the 32-bit little-endian size written to the first four bytes and the stat marshalled (checked) into the rest of the same slice; ids are registered only for selected regular files; an entry the selector rejected is never forwarded to the disk writer, pending ancestors are replayed before a selected entry and the pending list is cleared; the listing file is written only after the checked group wait, after removing any previous entry of that name, with write and close checked. The pending-ancestors stack top is inspected in every iteration before anything is pushed. An announced entry named like the listing file is neither forwarded nor registered; push/pop/clear of the ancestor stack do what their names say and the unwinding loop pops. Does not decide the chunk arithmetic of the buffer, the ancestor stack for all tree shapes, or removal of stale entries.", runC19)
+	register("C19", "Structural clauses of metadata-only transfer, decided on all paths of the receive loop: the id counter advances for every announced entry including the skipped listing-file name (finding F1, fixed); in metadata mode every announced entry other than the listing file's own name is framed into the buffer before the loop continues; a frame is alloc(size+4) with the 32-bit little-endian size written to the first four bytes and the stat marshalled (checked) into the rest of the same slice; ids are registered only for selected regular files; an entry the selector rejected is never forwarded to the disk writer, pending ancestors are replayed before a selected entry and the pending list is cleared; the listing file is written only after the checked group wait, after removing any previous entry of that name, with write and close checked. The pending-ancestors stack top is inspected in every iteration before anything is pushed. An announced entry named like the listing file is neither forwarded nor registered; push/pop/clear of the ancestor stack do what their names say and the unwinding loop pops. buffer.alloc(n) hands out exactly n bytes that are part of b.chunks, extending only the last chunk in place (read from and written back to slot len-1, under l+n <= cap) and appending otherwise. With a non-empty list pop shortens it and peek reports its top; the unwinding loop pops exactly while the top is not the entry's parent directory. Does not decide the remaining chunk arithmetic of the buffer, the ancestor stack for all tree shapes, or removal of stale entries.", runC19)
 }
 
 func runC19(c *Ctx) {
@@ -185,6 +186,140 @@ func r19_10(c *Ctx, rule string) {
 		}
 	})
 	c.R.Check(popInCycle, rule, c.name(m.loop)+"/unwinding-pops", c.pos(m.recv), "the unwinding loop pops", "no pop of the pending-ancestors stack lies in a loop: the unwinding loop inspects the same top element forever")
+	// the emptiness tests have the right polarity: with a non-empty list pop
+	// cannot return without having shortened it and peek cannot report "none"
+	emptyPins := func(f *ssa.Function, x *eng.Explorer, empty bool) map[string]bool {
+		return c.lenPins(f, x, empty, func(v ssa.Value) bool {
+			o, _, _, ok := eng.LoadedFieldRaw(v)
+			return ok && strings.HasSuffix(o, ".items")
+		})
+	}
+	if peek := find(".peek"); peek != nil {
+		for _, f := range []*ssa.Function{pop, peek} {
+			x := c.explorer(f)
+			pins := emptyPins(f, x, false)
+			con := "fsutil.stack." + f.Name() + "/non-empty-yields-top"
+			if len(pins) == 0 {
+				c.R.OK(rule, con, c.P.Pos(f.Pos()), "no emptiness test of a shape this rule interprets")
+				continue
+			}
+			x.Assume = pins
+			isPop := f == pop
+			x.Barrier = func(in ssa.Instruction, st *eng.State) bool {
+				if !isPop {
+					return false
+				}
+				for _, s := range itemsStores(f) {
+					if in == ssa.Instruction(s) {
+						return true
+					}
+				}
+				return false
+			}
+			x.Target = func(in ssa.Instruction, st *eng.State) bool {
+				r, ok := in.(*ssa.Return)
+				if !ok || r.Parent() != f {
+					return false
+				}
+				if isPop {
+					return true // a return not preceded by the shrinking store
+				}
+				if len(r.Results) == 2 {
+					if k, isK := r.Results[1].(*ssa.Const); isK && k.Value != nil && !constant.BoolVal(k.Value) {
+						return true
+					}
+				}
+				return false
+			}
+			x.StopAtTarget = true
+			hits := x.Run()
+			switch {
+			case x.Exhausted:
+				c.R.Undecided(rule, con, c.P.Pos(f.Pos()), "state limit")
+			case len(hits) > 0:
+				c.R.Fail(rule, con, c.pos(hits[0].Instr), "with a non-empty list stack."+f.Name()+" behaves as if it were empty (emptiness test inverted): the unwinding loop never ends or parked ancestors are lost")
+			default:
+				c.R.OK(rule, con, c.P.Pos(f.Pos()), "with a non-empty list the top element is returned"+map[bool]string{true: " and dropped", false: ""}[isPop])
+			}
+		}
+	}
+	// the unwinding loop stops at the parent: from the comparison of the
+	// entry's parent directory with the path of the stack top, "different"
+	// leads to a pop before anything is pushed, replayed or received, and
+	// "same" leads to no pop
+	stackCall := func(in ssa.Instruction, suffixes ...string) bool {
+		call, ok := in.(ssa.CallInstruction)
+		if !ok || !strings.Contains(c.P.CalleeName(call), "stack") {
+			return false
+		}
+		for _, sfx := range suffixes {
+			if strings.HasSuffix(c.P.CalleeName(call), sfx) {
+				return true
+			}
+		}
+		return false
+	}
+	var cmp *ssa.BinOp
+	eng.InstrsShallow(m.loop, func(in ssa.Instruction) {
+		b, ok := in.(*ssa.BinOp)
+		if !ok || (b.Op != token.EQL && b.Op != token.NEQ) {
+			return
+		}
+		isTop := func(v ssa.Value) bool {
+			o, base, _, ok := eng.LoadedFieldRaw(v)
+			if !ok || o != "fsutil.currentPath.path" {
+				return false
+			}
+			if ex, isE := base.(*ssa.Extract); isE {
+				if call, isC := ex.Tuple.(*ssa.Call); isC && stackCall(call, ".peek") {
+					return true
+				}
+			}
+			return c.DerivesFrom(base, func(y ssa.Value) bool {
+				call, isC := y.(*ssa.Call)
+				return isC && stackCall(call, ".peek")
+			}, 4)
+		}
+		isParent := func(v ssa.Value) bool {
+			return c.DerivesFrom(v, func(y ssa.Value) bool {
+				return c.isCallValueTo(y, "path/filepath.Dir") || c.isCallValueTo(y, "path.Dir")
+			}, 3)
+		}
+		if (isTop(b.X) && isParent(b.Y)) || (isTop(b.Y) && isParent(b.X)) {
+			cmp = b
+		}
+	})
+	if cmp == nil {
+		c.R.OK(rule, c.name(m.loop)+"/unwinding-stops-at-parent", c.pos(m.recv), "no comparison of the entry's parent directory with the stack top of a shape this rule interprets")
+		return
+	}
+	leaves := func(in ssa.Instruction) bool {
+		return stackCall(in, ".push", ".clear") || c.P.IsCallTo(in, "(fsutil.Stream).RecvMsg", "fsutil.(*dynamicWalker).update")
+	}
+	run := func(same bool, barrier, target func(ssa.Instruction) bool) (bool, bool) {
+		x := c.explorer(m.loop)
+		x.From = cmp
+		x.Assume = map[string]bool{x.RegKey(cmp): (cmp.Op == token.EQL) == same}
+		x.Barrier = func(in ssa.Instruction, st *eng.State) bool { return in != ssa.Instruction(cmp) && barrier(in) }
+		x.Target = func(in ssa.Instruction, st *eng.State) bool { return target(in) }
+		x.StopAtTarget = true
+		hits := x.Run()
+		return len(hits) > 0, x.Exhausted
+	}
+	isPopCall := func(in ssa.Instruction) bool { return stackCall(in, ".pop") }
+	skips, und1 := run(false, isPopCall, leaves)
+	pops, und2 := run(true, leaves, isPopCall)
+	con := c.name(m.loop) + "/unwinding-stops-at-parent"
+	switch {
+	case und1 || und2:
+		c.R.Undecided(rule, con, c.pos(cmp), "state limit")
+	case skips:
+		c.R.Fail(rule, con, c.pos(cmp), "the stack top is kept although it is not the parent directory of the entry (comparison inverted?): a parked directory that is not an ancestor is replayed into the destination")
+	case pops:
+		c.R.Fail(rule, con, c.pos(cmp), "the stack top is dropped although it is the parent directory of the entry (comparison inverted?): a selected file arrives without its parent")
+	default:
+		c.R.OK(rule, con, c.pos(cmp), "the top is popped exactly while it is not the entry's parent directory")
+	}
 }
 
 // R19.8: the pending-ancestors stack is unwound for every entry.
@@ -811,23 +946,29 @@ func r19_7(c *Ctx, rule string) {
 			}
 			ne++
 			// index = len(b.chunks)-1 and the value is a re-slice of that very element
-			idxOK := false
-			if bo, isB := a.Index.(*ssa.BinOp); isB && bo.Op == token.SUB {
-				if k1, isK := eng.ConstInt(bo.Y); isK && k1 == 1 {
-					if lc, isL := bo.X.(*ssa.Call); isL && c.P.CalleeName(lc) == "builtin:len" && isFieldLoad(lc.Call.Args[0], "fsutil.buffer.chunks") {
-						idxOK = true
+			isLast := func(idx ssa.Value) bool {
+				if bo, isB := eng.Canon(idx).(*ssa.BinOp); isB && bo.Op == token.SUB {
+					if k1, isK := eng.ConstInt(bo.Y); isK && k1 == 1 {
+						if lc, isL := bo.X.(*ssa.Call); isL && c.P.CalleeName(lc) == "builtin:len" && isFieldLoad(lc.Call.Args[0], "fsutil.buffer.chunks") {
+							return true
+						}
 					}
 				}
+				return false
 			}
+			idxOK := isLast(a.Index)
+			// (the element extended is the last one too: a window cut from
+			// another chunk's slack and stored over the last slot duplicates
+			// that chunk and drops the last one)
 			valOK := false
 			if sl, isS := s.Val.(*ssa.Slice); isS && eng.SliceLow(sl) == nil {
 				if ld, isL := sl.X.(*ssa.UnOp); isL && ld.Op == token.MUL {
-					if ia2, isIA := ld.X.(*ssa.IndexAddr); isIA && isFieldLoad(ia2.X, "fsutil.buffer.chunks") {
+					if ia2, isIA := ld.X.(*ssa.IndexAddr); isIA && isFieldLoad(ia2.X, "fsutil.buffer.chunks") && isLast(ia2.Index) {
 						valOK = true
 					}
 				}
 			}
-			c.R.Check(idxOK && valOK, rule, fmt.Sprintf("%s/element-store#%d", base, ne), c.pos(s), "the last chunk is extended in place", "an element of b.chunks is overwritten with something other than an extension of the last chunk: chunks are reordered or replaced, so the listing is not in stream order")
+			c.R.Check(idxOK && valOK, rule, fmt.Sprintf("%s/element-store#%d", base, ne), c.pos(s), "the last chunk is extended in place", "an element of b.chunks is overwritten with something other than an extension of the last chunk (read from and written to slot len-1): chunks are reordered, duplicated or replaced, so the listing is not in stream order")
 		case *ssa.FieldAddr:
 			if eng.FieldOwnerName(a.X.Type(), a.Field) != "fsutil.buffer.chunks" {
 				return
